@@ -578,6 +578,10 @@ def solve_valid_inc(s, goal, timeout_ms):
     # condition that the branch pruning did not refute).
     asserts = list(s.assertions())
     cone, rest = cone_of_influence(asserts[:-1], asserts[-1])
+    # the second, independent z3 build (Debian's 4.8.12 CLI: different heuristics decide many queries - notably
+    # satisfiable non-linear ones - that the 5.1 API leaves open) runs CONCURRENTLY with the cone check
+    smt2 = s.to_smt2()
+    cli = _z3cli_start(smt2, max(3000, timeout_ms))
     s2 = z3.Solver()
     s2.set("timeout", timeout_ms)
     for a in cone:
@@ -585,6 +589,7 @@ def solve_valid_inc(s, goal, timeout_ms):
     s2.add(asserts[-1])
     r = s2.check()
     if r == z3.unsat:
+        _z3cli_kill(cli)
         return "valid", "z3-cone", None
     if r == z3.sat:
         md = _model_to_dict(s2.model())
@@ -594,10 +599,9 @@ def solve_valid_inc(s, goal, timeout_ms):
         for a in rest:
             s3.add(a)
         if s3.check() != z3.unsat:
+            _z3cli_kill(cli)
             return "invalid", "z3-cone", (ms, md)
-    smt2 = s.to_smt2()
-    # a second, independent z3 build (Debian's 4.8.12 CLI): different heuristics decide many queries the 5.1 API leaves open
-    r1, m1 = _z3cli_check(smt2, max(3000, timeout_ms))
+    r1, m1 = _z3cli_finish(cli, max(3000, timeout_ms))
     if r1 == "unsat":
         return "valid", "z3-4.8.12(cli)", None
     if r1 == "sat":
@@ -738,6 +742,61 @@ def solve_valid(hyps, goal, timeout_ms):
     if r2 == "sat":
         return "invalid", "cvc5", ("(cvc5 sat; no model extracted)", {})
     return "unknown", "z3+cvc5", None
+
+
+def _z3cli_start(smt2: str, timeout_ms: int):
+    exe = "/usr/bin/z3"
+    if not os.path.exists(exe):
+        return None
+    try:
+        f = tempfile.NamedTemporaryFile("w", suffix=".smt2", delete=False)
+        f.write(smt2 + "\n(get-model)\n")
+        f.close()
+        p = subprocess.Popen([exe, f"-T:{max(1, timeout_ms // 1000)}", f.name], stdout=subprocess.PIPE, stderr=subprocess.DEVNULL, text=True)
+        return (p, f.name, time.time())
+    except Exception:
+        return None
+
+
+def _z3cli_kill(h):
+    if h is None:
+        return
+    p, fn, _ = h
+    try:
+        p.kill()
+        p.communicate(timeout=5)
+    except Exception:
+        pass
+    try:
+        os.unlink(fn)
+    except OSError:
+        pass
+
+
+def _z3cli_finish(h, timeout_ms: int):
+    """wait for the CLI run started earlier (its budget counts from its start)"""
+    if h is None:
+        return "unknown", ""
+    p, fn, t0 = h
+    try:
+        left = max(0.5, timeout_ms / 1000 + 2 - (time.time() - t0))
+        out, _ = p.communicate(timeout=left)
+        out = (out or "").strip()
+        head = out.splitlines()[0].strip() if out else "unknown"
+        if head in ("sat", "unsat"):
+            return head, (" ".join(out.split()[1:]) if head == "sat" else "")
+        return "unknown", ""
+    except Exception:
+        try:
+            p.kill()
+        except Exception:
+            pass
+        return "unknown", ""
+    finally:
+        try:
+            os.unlink(fn)
+        except OSError:
+            pass
 
 
 def _z3cli_check(smt2: str, timeout_ms: int):
